@@ -71,6 +71,12 @@ BUILT.update({
           "N=4..32 (thorough 64) exhaustive over coefficient index, pack count and trace parameter, three schemes, both input representations, two levels: extraction+assembly yields m_i in the constant coefficient, the field trace keeps exactly the multiples of N/2^l scaled by N/2^l, packing k extractions yields the values at stride N/2^ceil(log2 k); larger N sampled; every intermediate ciphertext valid.",
           "Key-switch noise precondition analytic; CKKS asserted when the tolerance is <= 1/(4N).", "DESIGN.md §3 C19"),
 })
+
+BUILT.update({
+ "C20": e("runtime monitor: every small shape through the real matmul / conv2d / rns_plain helpers (encode, encrypt, compute, transport by selected-terms or full serialization, decrypt) against u128 / f64 / big-integer reference products",
+          "Cheetah MatmulHelper: all (m,r,n) in [1,10]^3 at N=8,16,32 plus boundary shapes x objectives x packing x direction x BFV/CKKS; BOLT variants: all shapes in [1,8]^3 at N=16,32; Conv2dHelper: sampled shapes so that height/width/channel/batch splits occur; rns_plain programs against big integers modulo the product of the plain moduli; output re-encoding inverse of decoding; bias addition exact.",
+          "Two 60-bit data primes (+ special prime) and bounded operands so the worst-case noise is within budget; CKKS tolerance derived in the evidence assumptions.", "DESIGN.md §3 C20"),
+})
 hook_commits = subprocess.check_output(["git", "-C", "/repo", "log", "--format=%H %s"]).decode().splitlines()
 hooks = [l.split()[0] for l in hook_commits if l.split(" ", 1)[1].startswith("verif hooks")]
 checks, na = [], []
